@@ -8,7 +8,7 @@ IFACES = ['interp', 'mirinterp', 'gen', 'lazy', 'bb']
 # every shape tools/gen_c03_progs.py knows, except `alloca` in inlinable functions: MIR_link's hoisting of inlined
 # constant-size allocas hands out garbage blocks (reported to C04's owner; it made programs nondeterministic under
 # every interface alike)
-FEATS = {'mem', 'switch', 'laddr', 'lref', 'indirect', 'reftab', 'inline', 'recursion', 'callback', 'ext_va'}
+FEATS = {'mem', 'switch', 'laddr', 'lref', 'indirect', 'reftab', 'inline', 'recursion', 'callback', 'ext_va', 'global', 'faddr'}
 PDIR = os.path.join(vlib.BUILD, 'c03p')
 
 
@@ -83,7 +83,7 @@ def disagree(outs):
 
 # ---------------------------------------------------------------- shrinking
 
-KEEP_RE = re.compile(r'^\s*(\w+:\s*$|local\b|ret\b|alloca\b|va_\w+\b|laddr\b|jmpi\b|add t1, t1, i64:\(t3\)|mov i64:\(al\d+\)|mov i64:24\(al\d+\)|endfunc|endmodule|import|export|forward|'
+KEEP_RE = re.compile(r'^\s*(\w+:\s*$|local\b|global\b|mov gv, gsv|mov gsv, gv|ret\b|alloca\b|va_\w+\b|laddr\b|jmpi\b|add t1, t1, i64:\(t3\)|mov i64:\(al\d+\)|mov i64:24\(al\d+\)|endfunc|endmodule|import|export|forward|'
                      r'i2d d2, t0|dmul d2, d2, 3\.5|u?ext32 (\w+), \2\s*$|\w+\s+(t[0-3]|c\d+|va)\s*,)')
 
 
